@@ -1941,11 +1941,16 @@ def serialize_graph_into(
                 continue
             else:
                 serialize_value_into(graph_proto.value_info.add(), node_output)
+    annotated_output_names: set[str | None] = set()
     for output in from_.outputs:
         serialize_value_into(graph_proto.output.add(), from_=output)
         if output.name in input_names or output.name in from_.initializers:
             # The annotation was already added with the inputs / initializers above
             continue
+        if output.name in annotated_output_names:
+            # The same value can be listed as a graph output more than once
+            continue
+        annotated_output_names.add(output.name)
         _maybe_add_quantization_annotation(graph_proto, output)
     if from_.metadata_props:
         _serialize_metadata_props_into(graph_proto.metadata_props, from_.metadata_props)
